@@ -608,27 +608,65 @@ Proof.
   rewrite forallb_forall in Hall. specialize (Hall _ Hin). apply negb_true_iff in Hall. now apply mem_false_not_In.
 Qed.
 
-(* overused_constant: the index that is picked is free ... *)
+(* overused_constant: every generated name is free, and the names are pairwise different *)
 Theorem pick_index_free bl i : pick_index bl = Some i -> ~ In (overused_name i) bl.
 Proof.
   unfold pick_index. destruct (mem (overused_name (pick_fuel 11 0 bl)) bl) eqn:E; [discriminate|].
   intros [= <-]. now apply mem_false_not_In.
 Qed.
-(* ... but the following names are not checked *)
-Definition OC1 : ident := overused_name 1.
-Theorem overused_names_refuted : exists bl k n, In n (overused_names bl k) /\ In n bl.
-Proof. exists [OC1], 2%nat, OC1. split; [vm_compute; tauto|now left]. Qed.
-Theorem overused_names_partial bl n : In n (overused_names bl 1) -> ~ In n bl.
+
+Lemma next_free_free fuel i bl j : next_free fuel i bl = Some j -> ~ In (overused_name j) bl.
 Proof.
-  unfold overused_names. destruct (pick_index bl) as [i|] eqn:E; [|contradiction].
-  change (seq 0 1) with [0%nat]. cbn [map In]. change (N.of_nat 0) with 0%N. rewrite N.add_0_r.
-  intros [<-|[]]. now apply pick_index_free.
+  revert i; induction fuel as [|f IH]; intros i; cbn [next_free]; [discriminate|].
+  destruct (mem (overused_name i) bl) eqn:E; [apply IH|]. intros [= <-]. now apply mem_false_not_In.
 Qed.
 
-(* var_n and {value}_{target}: the names in use are not consulted at all *)
-Definition var_names (used : list ident) (k : nat) : list ident := map var_name (seq 0 k).
-Theorem var_names_refuted : exists used k n, In n (var_names used k) /\ In n used.
-Proof. exists [var_name 0], 1%nat, (var_name 0). split; now left. Qed.
-Definition keys_items_names (used : list ident) (value target : text) : ident := keys_items_name value target.
-Theorem keys_items_refuted : exists used value target, In (keys_items_names used value target) used.
-Proof. exists [keys_items_name [100]%N [107]%N], [100]%N, [107]%N. now left. Qed.
+Lemma overused_seq_fresh k : forall i bl n, In n (overused_seq k i bl) -> ~ In n bl.
+Proof.
+  induction k as [|k IH]; intros i bl n; cbn [overused_seq]; [contradiction|].
+  destruct (next_free (S (List.length bl)) i bl) as [j|] eqn:E; [|contradiction].
+  intros [<-|Hin]; [exact (next_free_free _ _ _ _ E)|].
+  intros Hb. apply (IH _ _ _ Hin). now right.
+Qed.
+
+Lemma overused_seq_NoDup k : forall i bl, NoDup (overused_seq k i bl).
+Proof.
+  induction k as [|k IH]; intros i bl; cbn [overused_seq]; [constructor|].
+  destruct (next_free (S (List.length bl)) i bl) as [j|] eqn:E; [|constructor].
+  constructor; [|apply IH]. intros Hin. apply (overused_seq_fresh _ _ _ _ Hin). now left.
+Qed.
+
+Theorem overused_names_fresh bl k n : In n (overused_names bl k) -> ~ In n bl.
+Proof. unfold overused_names. destruct (pick_index bl); [apply overused_seq_fresh|contradiction]. Qed.
+Theorem overused_names_NoDup bl k : NoDup (overused_names bl k).
+Proof. unfold overused_names. destruct (pick_index bl); [apply overused_seq_NoDup|constructor]. Qed.
+Theorem overused_string_name_free bl c n :
+  overused_string_name bl c = Some n -> n = c /\ ~ In n bl /\ is_ident n = true.
+Proof.
+  unfold overused_string_name. destruct (mem c bl) eqn:E1; [discriminate|].
+  destruct (is_ident c) eqn:E2; [|discriminate]. cbn. intros [= <-].
+  repeat split; [now apply mem_false_not_In|exact E2].
+Qed.
+
+Lemma firstn_incl {A} k (l : list A) x : In x (firstn k l) -> In x l.
+Proof.
+  revert l; induction k as [|k IH]; intros [|a l]; cbn; try contradiction.
+  intros [->|H]; [now left|right; now apply IH].
+Qed.
+
+(* var_n: free *)
+Theorem var_names_fresh used k n : In n (var_names used k) -> ~ In n used.
+Proof.
+  unfold var_names. intros H. apply firstn_incl in H. apply filter_In in H as [_ H].
+  apply negb_true_iff in H. now apply mem_false_not_In.
+Qed.
+Example var_names_example :
+  var_names [var_name 0; var_name 2] 2 = [var_name 1; var_name 3].
+Proof. vm_compute. reflexivity. Qed.
+
+(* {value}_{target}: used only when free *)
+Theorem keys_items_fresh used value target n : keys_items_decision used value target = Some n -> ~ In n used.
+Proof.
+  unfold keys_items_decision. destruct (mem (keys_items_name value target) used) eqn:E; [discriminate|].
+  intros [= <-]. now apply mem_false_not_In.
+Qed.
